@@ -17,7 +17,7 @@ def run(chk):
     quick = chk.tier == "quick"
     chk.rule = ("all 289 colour pairs x data x fault scripts (fail position 0..4 x kind, data prefix, short code write); non-trivial = "
                 "script with a fault or a short write")
-    chk.assumptions = ["data is plain text; the inner writer accepts whole characters", "Interrupted inside std's write_all of a code is retried, not surfaced"]
+    chk.assumptions = ["data is plain text (no escape sequence); the inner writer may accept ANY prefix of it, also one that ends inside a character", "Interrupted inside std's write_all of a code is retried, not surfaced"]
     wd = vlib.workdir("c17")
     cfg = mk_cfg("spec/mc/MC_WinconAnsi.cfg", os.path.join(wd, "m.cfg"), {"AllData": not quick})
     shards = 8
@@ -72,7 +72,7 @@ def replay(obj):
 def selftest():
     wd = vlib.workdir("c17-self")
     p = os.path.join(wd, "e.ndjson")
-    good = {"fg": 1, "bg": 16, "data": [97], "inner": [[[27, 91, 51, 49, 109], "ok", 5], [[97], "ok", 1], [[27, 91, 48, 109], "ok", 4]], "ret": ["ok", 1]}
+    good = {"fg": 1, "bg": 16, "data": [97], "inner": [[[27, 91, 51, 49, 109], "ok", 5], [[97], "ok", 1], [[27, 91, 48, 109], "ok", 4]], "ret": ["ok", 1], "whole": False}
     bad = json.loads(json.dumps(good)); bad["inner"][0][0][3] = 50
     vlib.write_lines(p, [good, bad])
     ok, rej, _ = vlib.tlc_trace(p, "Trace_WinconAnsi", "c17-self")
